@@ -390,6 +390,7 @@ func (c *Client) beginCommand(name string, cmd command) *commandEncoder {
 	literalMinus := c.caps.Has(imap.CapLiteralMinus)
 	literalPlus := c.caps.Has(imap.CapLiteralPlus)
 	c.mutex.Unlock()
+	verifPoint("begin.registered", tag)
 
 	c.setWriteTimeout(cmdWriteTimeout)
 
@@ -406,6 +407,7 @@ func (c *Client) beginCommand(name string, cmd command) *commandEncoder {
 		tag:  tag,
 		done: make(chan error, 1),
 	}
+	verifPoint("begin.inited", tag)
 	enc := &commandEncoder{
 		Encoder: wireEnc,
 		client:  c,
@@ -455,6 +457,7 @@ func findPendingCmdByType[T command](c *Client) T {
 }
 
 func (c *Client) completeCommand(cmd command, err error) {
+	verifPoint("complete", cmd.base().tag)
 	done := cmd.base().done
 	done <- err
 	close(done)
@@ -547,6 +550,7 @@ func (c *Client) closeWithError(err error) {
 	pendingCmds := c.pendingCmds
 	c.pendingCmds = nil
 	c.mutex.Unlock()
+	verifPoint("close.swapped", "")
 
 	for _, cmd := range pendingCmds {
 		c.completeCommand(cmd, err)
